@@ -322,7 +322,11 @@ def encode(desc):
             else:
                 out += ["TL", str(len(t))] + [enc_val(x) for x in t]
     out += ["R", str(len(desc["records"]))]
-    for r in desc["records"]:
+    same = dict(desc.get("same") or [])
+    for i, r in enumerate(desc["records"]):
+        if i in same:
+            out.append("=%d" % same[i])      # the very same record object as record same[i]
+            continue
         out.append(str(len(r)))
         out += [enc_val(v) for v in r]
     out.append(_opt(desc.get("fmt")))
@@ -414,7 +418,11 @@ def decode(toks):
         raise ValueError("R")
     records = []
     for _ in range(int(p.tok())):
-        records.append(tuple(dec_val(p.tok()) for _ in range(int(p.tok()))))
+        t = p.tok()
+        if t.startswith("="):
+            records.append(records[int(t[1:])])      # one object at several places of the list
+        else:
+            records.append(tuple(dec_val(p.tok()) for _ in range(int(t))))
     kw["fmt"] = p.opt()
     l = p.tok()
     if l == "L":
@@ -1012,6 +1020,8 @@ def gen_width(rng):
         w = rng.choice([0, 0, 1, 2, 3, 4, 5, 8, rng.randint(0, 8), 20])
         return [w, w]
     a = rng.choice([0, 0, 1, 2, 3, rng.randint(0, 6)])
+    if rng.random() < 0.06:
+        return [a + rng.randint(1, 8), a]      # contradictory bounds: the code lets the maximum win
     return [a, a + rng.randint(0, 8)]
 
 
@@ -1116,6 +1126,15 @@ def gen_desc(rng, big=False):
                 r.append(gen_value(rng, profiles[i]))
         records.append(r)
         prev = r
+    same = []
+    if nrec >= 2 and rng.random() < 0.15:
+        # one record OBJECT at several places of the list ([row] * n, a shared heartbeat row, random.choices(pool))
+        for i in range(1, nrec):
+            if rng.random() < 0.5:
+                k = rng.randrange(i)
+                k = dict(same).get(k, k)
+                same.append([i, k])
+                records[i] = list(records[k])
     cols = None
     if rng.random() < 0.85:
         cols = []
@@ -1127,6 +1146,7 @@ def gen_desc(rng, big=False):
     desc = {
         "valid": True, "fields": fields, "records": records, "cols": cols, "fmt_limits": fmt_limits,
         "limits": limits,
+        "same": same or None,
         "header": rng.choice([None, None, "", "H", "My Table | Description", "a very long header " * 4]),
         "footer": rng.choice([None, None, "", "F", "+--+", "a very long footer " * 4]),
         "skip": None,
@@ -1296,6 +1316,7 @@ def gen_ilv_case(rng):
             d["fmt"] = fmt_str(rng, d["cols"], [a, b])
             if len(d["records"]) < 6:
                 d["records"] = gen_records_like(rng, d, rng.choice([6, 8, 12]))
+                d["same"] = None
         descs.append(d)
     iters = [rng.randrange(len(descs)) for _ in range(rng.choice([2, 2, 3, 4]))]
     if len(descs) > 1 and len(set(iters)) == 1:
@@ -1532,6 +1553,14 @@ def shrink(case):
     for i in range(len(desc["records"])):
         d = copy.deepcopy(desc)
         del d["records"][i]
+        if d.get("same"):
+            # keep the sharing among the remaining records
+            old = dict(map(tuple, d["same"]))
+            groups = {}
+            for j in range(len(desc["records"])):
+                if j != i:
+                    groups.setdefault(old.get(j, j), []).append(j - (j > i))
+            d["same"] = [[m, g[0]] for g in groups.values() for m in g[1:]] or None
         yield mk(d)
     if desc.get("cols") and len(desc["cols"]) > 1 and desc.get("valid"):
         for i in range(len(desc["cols"])):
@@ -1552,7 +1581,7 @@ def shrink(case):
                 yield mk(d)
     for i, r in enumerate(desc["records"]):
         for j, v in enumerate(r):
-            if isinstance(v, str) and len(v) > 1:
+            if isinstance(v, str) and len(v) > 1 and not desc.get("same"):
                 d = copy.deepcopy(desc)
                 d["records"][i][j] = v[:len(v) // 2]
                 yield mk(d)
@@ -1637,6 +1666,10 @@ def tags(case, replies):
         return
     lines = [dec_str(t) for t in rep.split()[2:]]
     yield "records:%s" % min(len(desc["records"]), 13)
+    if desc.get("same"):
+        yield "feature:one-record-object-at-several-places"
+    if desc.get("cols") and any(c["w"] not in (None, "hidden") and c["w"][0] > c["w"][1] for c in desc["cols"]):
+        yield "feature:min-greater-than-max"
     yield "columns:%d" % max(0, lines[0].count("+") - 1)
     if desc.get("valid"):
         try:
